@@ -155,6 +155,20 @@ class Linearizer:
             mid = self.lin(s[1][2][1])
             if mid is not None:
                 return mid if s[2] == '0' else self.slice_len(s[1][2][0]) - mid
+        if s[0] == 'field' and s[2] == '0' and s[1][0] == 'variant' and s[1][2] == 'Some' and s[1][1][0] == 'call' and isinstance(s[1][1][1], str) and s[1][1][1].endswith('::next'):
+            # an item of `slice.chunks_exact(N)`: exactly N elements (N the one literal used with chunks_exact in the crate)
+            a0 = s[1][1][2][0] if s[1][1][2] else None
+            ty = a0[3] if a0 is not None and a0[0] == 'havoc' and len(a0) > 3 else ''
+            if 'ChunksExact<' in (ty or ''):
+                ns = set()
+                for g_ in self.pv.crate.fn_list:
+                    for bid_, t_ in g_.calls():
+                        if (g_.callee(t_) or '').endswith('<impl [T]>::chunks_exact'):
+                            a_ = t_['args'][1] if len(t_['args']) == 2 else None
+                            c_ = (a_ or {}).get('const') if isinstance(a_, dict) else None
+                            ns.add(int(c_['scalar'], 16) if c_ and c_.get('scalar') is not None else None)
+                if len(ns) == 1 and None not in ns:
+                    return Lin.const(ns.pop())
         if s[0] == 'cbytes':
             return Lin.const(len(s[1]) // 2)
         if s[0] == 'array':
